@@ -120,6 +120,33 @@ impl FromStr for InputList {
     }
 }
 
+/// XML 1.0 `Char` production
+fn is_xml_char(c: char) -> bool {
+    matches!(c, '\t' | '\n' | '\r' | '\u{20}'..='\u{D7FF}' | '\u{E000}'..='\u{FFFD}' | '\u{10000}'..='\u{10FFFF}')
+}
+
+/// XML 1.0 `Name` production
+fn is_xml_name(name: &[u8]) -> bool {
+    fn start(c: char) -> bool {
+        matches!(c, ':' | 'A'..='Z' | '_' | 'a'..='z' | '\u{C0}'..='\u{D6}' | '\u{D8}'..='\u{F6}'
+            | '\u{F8}'..='\u{2FF}' | '\u{370}'..='\u{37D}' | '\u{37F}'..='\u{1FFF}'
+            | '\u{200C}'..='\u{200D}' | '\u{2070}'..='\u{218F}' | '\u{2C00}'..='\u{2FEF}'
+            | '\u{3001}'..='\u{D7FF}' | '\u{F900}'..='\u{FDCF}' | '\u{FDF0}'..='\u{FFFD}'
+            | '\u{10000}'..='\u{EFFFF}')
+    }
+    fn other(c: char) -> bool {
+        start(c)
+            || matches!(c, '-' | '.' | '0'..='9' | '\u{B7}' | '\u{300}'..='\u{36F}' | '\u{203F}'..='\u{2040}')
+    }
+    match std::str::from_utf8(name) {
+        Ok(s) => {
+            let mut chars = s.chars();
+            chars.next().is_some_and(start) && chars.all(other)
+        }
+        Err(_) => false,
+    }
+}
+
 impl InputList {
     pub fn new() -> Self {
         Self { events: vec![] }
@@ -169,6 +196,31 @@ impl InputList {
                 if std::str::from_utf8(ok_ev.as_ref()).is_err() {
                     return Err(SvgdxError::ParseError(format!(
                         "XML error near line {src_line}: invalid UTF-8"
+                    )));
+                }
+                // Much of the input is copied to the output; characters and names which
+                // XML doesn't allow can't be emitted as well-formed output.
+                let ev_str = std::str::from_utf8(ok_ev.as_ref()).expect("checked");
+                if let Some(c) = ev_str.chars().find(|c| !is_xml_char(*c)) {
+                    return Err(SvgdxError::ParseError(format!(
+                        "XML error near line {src_line}: invalid character U+{:04X}",
+                        c as u32
+                    )));
+                }
+                let bad_name = match &ok_ev {
+                    Event::Start(e) | Event::Empty(e) => Some(e.name())
+                        .into_iter()
+                        .chain(e.attributes().flatten().map(|a| a.key))
+                        .find(|n| !is_xml_name(n.as_ref()))
+                        .map(|n| String::from_utf8_lossy(n.as_ref()).to_string()),
+                    Event::End(e) => Some(e.name())
+                        .filter(|n| !is_xml_name(n.as_ref()))
+                        .map(|n| String::from_utf8_lossy(n.as_ref()).to_string()),
+                    _ => None,
+                };
+                if let Some(name) = bad_name {
+                    return Err(SvgdxError::ParseError(format!(
+                        "XML error near line {src_line}: invalid name '{name}'"
                     )));
                 }
                 if let Event::Start(e) | Event::Empty(e) = &ok_ev {
